@@ -120,6 +120,20 @@ func vpBuild(chunks []vpChunk, sectors int) []byte {
 	return img
 }
 
+// vpBuildUnpadded: as vpBuild, but the file ends with the last byte of the
+// chunk stored last, as WriteSector leaves it (it does not pad to a sector
+// boundary); free sectors behind the last chunk do not exist in the file.
+func vpBuildUnpadded(chunks []vpChunk, sectors int) []byte {
+	img := vpBuild(chunks, sectors)
+	end := 8192
+	for _, c := range chunks {
+		if e := 4096*int(c.sec) + 4 + c.length; e > end {
+			end = e
+		}
+	}
+	return img[:end]
+}
+
 // vpArbitraryState draws K live chunks at distinct coordinates with symbolic
 // (sector, count) constrained only by the Anvil validity predicate.
 func vpArbitraryState(K, S int) []vpChunk {
